@@ -130,11 +130,19 @@ static int add_threads(m_thpool_t *pool, int num) {
     int err = 0;
     for (int i = 0; i < num && err == 0; i++) {
         pthread_t *th = memhook._calloc(1, sizeof(pthread_t));
-        err = pthread_create(th, &tattr, thpool_thread, (void *) pool);
-        if (err == 0) {
-            m_list_insert(pool->threads, th);
-        } else {
+        if (!th) {
+            err = ENOMEM;
+            break;
+        }
+        /* Store thread first: once started it must be accounted for (and joined) */
+        if (m_list_insert(pool->threads, th) != 0) {
             memhook._free(th);
+            err = ENOMEM;
+            break;
+        }
+        err = pthread_create(th, &tattr, thpool_thread, (void *) pool);
+        if (err != 0) {
+            m_list_remove(pool->threads, th);
         }
     }
     pthread_attr_destroy(&tattr);
